@@ -250,8 +250,8 @@ static void reset_seam(void) {
  * The runner reads the shards' stdout pipes one after the other, so a shard that prints more than a
  * pipe buffer (64 KiB) stalls until it is read (and its case timer expires); vf itself prints at most
  * 300 violations per shard in enumeration order. To keep the output small AND let every signature
- * through, each signature gets a budget per shard: the first 4 violations are reported with the full
- * text, the next 26 with a short text, the rest is only counted (counter violations_beyond_report_budget
+ * through, each signature gets a budget per shard: the first 3 violations are reported with the full
+ * text, the next 12 with the text cut to 100 characters, the rest is only counted (counter violations_beyond_report_budget
  * and outcome class "violation:<signature>"). A replayed case always reports in full; setting the
  * environment variable C20_REPORT_ALL additionally lists every violation (signature, case) on stderr for triage. */
 static void report(const char *sig, const char *fmt, ...) __attribute__((format(printf, 2, 3)));
@@ -267,14 +267,13 @@ static void report(const char *sig, const char *fmt, ...) {
 	vf_outcome("violation:%s", sig);
 	vf_count("violations_found", 1);
 	if (getenv("C20_REPORT_ALL")) fprintf(stderr, "C20VIOL %s\t%s\n", sig, vf_case_name());
-	if (tab[i].n <= 4 || vf_replaying()) {
-		va_start(ap, fmt);
-		vsnprintf(d, sizeof d, fmt, ap);
-		va_end(ap);
-		if (strlen(d) > 700) strcpy(d + 690, " ...");
-		vf_fail(sig, "%s", d);
-	} else if (tab[i].n <= 30) vf_fail(sig, "(same signature as reported before; replay the case for the full text)");
-	else vf_count("violations_beyond_report_budget", 1);
+	if (tab[i].n > 15 && !vf_replaying()) { vf_count("violations_beyond_report_budget", 1); return; }
+	va_start(ap, fmt);
+	vsnprintf(d, sizeof d, fmt, ap);
+	va_end(ap);
+	if (strlen(d) > 600) strcpy(d + 590, " ...");
+	if (tab[i].n > 3 && !vf_replaying() && strlen(d) > 100) strcpy(d + 96, " ...");
+	vf_fail(sig, "%s", d);
 }
 
 /* ------------------------------------------------------------------ PDU credentials (reference side)
